@@ -111,7 +111,12 @@ func ParseTime(v string) (Time, error) {
 	if err != nil {
 		return Time{}, err
 	}
+	t = t.Round(DatePrecision)
+	if t.Year() > 9999 {
+		// rounding moved the date past the last year the date format can express
+		return Time{}, fmt.Errorf("date %s out of range", v)
+	}
 	return Time{
-		Time: t.Round(DatePrecision),
+		Time: t,
 	}, nil
 }
